@@ -142,12 +142,90 @@ def triangle_family():
     return out
 
 
+def upsplit_sample(rng, n_nodes):
+    """a sampled workflow whose nodes may split over UPSTREAM OUTPUTS and may be list-makers (possibly of
+    the empty list): WfState!AsList / MkOf.  Own split fields range over list inputs and node sources."""
+    names, nodes = [], []
+    for i in range(n_nodes):
+        nm = f"n{i}"
+        mk = rng.choice([0, 1, 2, 2]) if rng.random() < (0.45 if i < n_nodes - 1 else 0.15) else -1
+        srcs = [src("wf", "A"), src("wf", "B"), src("wf", "s")] + [src("node", n) for n in names] * 3
+        x = rng.choice(srcs + [src("none")]) if names == [] or rng.random() < 0.2 else rng.choice([src("node", n) for n in names])
+        y = src("none") if mk >= 0 or rng.random() < 0.45 else rng.choice(srcs)
+        cand = [f for f, s_ in (("x", x), ("y", y)) if (s_["k"] == "wf" and INS[s_["v"]] > 0) or s_["k"] == "node"]
+        splits = [None] + [leaf(f) for f in cand] * 2
+        if len(cand) == 2:
+            splits += [node_("*", [leaf("x"), leaf("y")]), node_("*", [leaf("y"), leaf("x")]), node_(".", [leaf("x"), leaf("y")])]
+        sp = rng.choice(splits)
+        own = [] if sp is None else ([sp["name"]] if sp["op"] == "f" else [k["name"] for k in sp["kids"]])
+        combs = [[]] + [[[nm, f]] for f in own] * 2
+        if len(own) == 2:
+            combs.append([[nm, "x"], [nm, "y"]])
+        nd = {"name": nm, "x": x, "y": y, "hassplit": sp is not None, "split": sp or DUMMY, "comb": rng.choice(combs), "mk": mk}
+        nodes.append(nd)
+        names.append(nm)
+        if i > 0 and rng.random() < 0.15:
+            inh = [a for a in axes_of({"nodes": nodes})[nm] if a[0] != nm]
+            if inh:
+                nd["comb"] = nd["comb"] + [rng.choice(inh)]
+    return {"ins": INS, "nodes": nodes, "outs": list(names)}
+
+
+def empty_split_family():
+    """p -> e (split over p.out, combined) -> d, with an independent branch q: the list p returns has 0, 1 or 2
+    elements; e has as many jobs (possibly none) and d always runs once."""
+    out = []
+    for k in (0, 1, 2):
+        for comb in ([["n1", "x"]], []):
+            n0 = {"name": "n0", "x": src("wf", "s"), "y": src("none"), "hassplit": False, "split": DUMMY, "comb": [], "mk": k}
+            n1 = {"name": "n1", "x": src("node", "n0"), "y": src("none"), "hassplit": True, "split": leaf("x"), "comb": comb, "mk": -1}
+            n2 = {"name": "n2", "x": src("node", "n1"), "y": src("none"), "hassplit": False, "split": DUMMY, "comb": [], "mk": -1}
+            n3 = {"name": "n3", "x": src("wf", "s"), "y": src("wf", "A"), "hassplit": False, "split": DUMMY, "comb": [], "mk": -1}
+            out.append({"ins": INS, "nodes": [n0, n1, n2, n3], "outs": ["n0", "n1", "n2", "n3"], "family": "empty-split"})
+            out.append({"ins": INS, "nodes": [n3, dict(n0)] + [n1, n2], "outs": ["n3", "n0", "n1", "n2"], "family": "empty-split"})
+    return out
+
+
+INNER_KINDS = ("chain1", "chain2", "split", "splitc")
+
+
+def nested_sample(rng, n_nodes):
+    """a sampled workflow in which one or more nodes are nested workflows (WfState!JobTerm)."""
+    wf = sample(rng, n_nodes, inherited_comb=0.15)
+    own = lambda nd: [] if not nd["hassplit"] else ([nd["split"]["name"]] if nd["split"]["op"] == "f" else [k["name"] for k in nd["split"]["kids"]])  # noqa
+    picked = False
+    for nd in wf["nodes"]:
+        if rng.random() < 0.5 or (not picked and nd is wf["nodes"][-1]):
+            kinds = ["chain1", "chain2"]
+            # an inner split needs a list-valued x: a whole list input or an upstream (combined) node output
+            if nd["x"]["k"] != "none" and "x" not in own(nd) and not (nd["x"]["k"] == "wf" and INS[nd["x"]["v"]] == 0):
+                kinds += ["split", "splitc", "split", "splitc"]
+            nd["inner"] = rng.choice(kinds)
+            picked = True
+    return wf
+
+
+def inner_source(nd):
+    nm, k = nd["name"], nd["inner"]
+    L = ["@workflow.define(outputs=['out'])", f"def Inner_{nm}(x: ty.Any = None, y: ty.Any = None) -> ty.Any:"]
+    if k == "chain1":
+        L += [f"    m0 = workflow.add(N(name='{nm}_i0', x=x, y=y), name='m0')", "    return m0.out"]
+    elif k == "chain2":
+        L += [f"    m0 = workflow.add(N(name='{nm}_i0', x=x, y=y), name='m0')",
+              f"    m1 = workflow.add(N(name='{nm}_i1', x=m0.out), name='m1')", "    return m1.out"]
+    else:
+        comb = ".combine('x')" if k == "splitc" else ""
+        L += [f"    m0 = workflow.add(N(name='{nm}_i0', y=y).split('x', x=x){comb}, name='m0')", "    return m0.out"]
+    return L + [""]
+
+
 # ---------------- TLC evaluation ----------------
 def tlc_expected(ctx, wfs, tag="wf"):
     f = ctx.scratch / f"{tag}_cases.ndjson"
     with open(f, "w") as fh:
         for i, w in enumerate(wfs, 1):
-            fh.write(json.dumps({"tid": i, "ins": w["ins"], "nodes": w["nodes"], "outs": w["outs"]}) + "\n")
+            nodes = [{**nd, "inner": nd.get("inner", "none"), "mk": nd.get("mk", -1)} for nd in w["nodes"]]
+            fh.write(json.dumps({"tid": i, "ins": w["ins"], "nodes": nodes, "outs": w["outs"]}) + "\n")
     r = ctx.tlc("WfState_Eval", cfg="WfState_Eval.cfg", workers=1, env={"TRACE_FILE": str(f)}, timeout=3000)
     res = {rec["tid"]: rec["res"] for rec in r.printed()}
     if len(res) != len(wfs):
@@ -165,6 +243,10 @@ def conv(t):
         return "S_" + t["inp"]
     if k == "list":
         return [conv(x) for x in t["v"]]
+    if k == "str":
+        return t["s"]
+    if k == "int":
+        return t["i"]
     return [t["n"], conv(t["x"]), conv(t["y"])]
 
 
@@ -184,18 +266,31 @@ def wf_source(wf, spelling="bare"):
          "    if seed:",
          "        time.sleep((zlib.crc32(repr((seed, name, x, y)).encode()) % 40) / 1000.0)",
          "    return [name, x, y]", "",
-         "@workflow.define(outputs=[%s])" % ", ".join(repr("o_" + n) for n in wf["outs"]),
-         "def GenWf(%s):" % ", ".join(f"{k}: ty.Any" for k in wf["ins"])]
+         "@python.define", "def M(name: str, k: int, x: ty.Any = None) -> ty.Any:",
+         "    import os, time, zlib",
+         "    seed = os.environ.get('VERIF_DELAY_SEED')",
+         "    if seed:",
+         "        time.sleep((zlib.crc32(repr((seed, name, k, x)).encode()) % 40) / 1000.0)",
+         "    return [[name, i, x] for i in range(k)]", "",
+         ]
+    for nd in wf["nodes"]:
+        if nd.get("inner", "none") != "none":
+            L += inner_source(nd)
+    L += ["@workflow.define(outputs=[%s])" % ", ".join(repr("o_" + n) for n in wf["outs"]),
+          "def GenWf(%s):" % ", ".join(f"{k}: ty.Any" for k in wf["ins"])]
     for nd in wf["nodes"]:
         own = [] if not nd["hassplit"] else ([nd["split"]["name"]] if nd["split"]["op"] == "f" else [k["name"] for k in nd["split"]["kids"]])
-        args, sargs = [f"name={nd['name']!r}"], []
+        nested = nd.get("inner", "none") != "none"
+        args, sargs = ([] if nested else [f"name={nd['name']!r}"]), []
         for f in ("x", "y"):
             s = nd[f]
             if s["k"] == "none":
                 continue
             v = s["v"] if s["k"] == "wf" else f"{s['v']}.out"
             (sargs if f in own else args).append(f"{f}={v}")
-        t = f"N({', '.join(args)})"
+        if nd.get("mk", -1) >= 0:
+            args.insert(1, f"k={nd['mk']}")
+        t = f"{'Inner_' + nd['name'] if nested else ('M' if nd.get('mk', -1) >= 0 else 'N')}({', '.join(args)})"
         if nd["hassplit"]:
             if spelling == "kw" and nd["split"]["op"] == "f":
                 t += f".split({', '.join(sargs)})"
